@@ -815,6 +815,26 @@ pub fn c19_case(ctx: &mut Ctx, rng: &mut Rng, xdir: &str) {
             }
         }
     }
+    // a line that is not UTF-8 is malformed too
+    if !want.is_empty() && rng.chance(0.3) {
+        let mut bytes = canon.clone().into_bytes();
+        let lines_at: Vec<usize> = std::iter::once(0).chain(bytes.iter().enumerate().filter(|(_, &b)| b == b'\n').map(|(i, _)| i + 1)).collect();
+        let at = lines_at[rng.below(lines_at.len())];
+        let bad: &[u8] = *rng.pick(&[&b"\xffx\tf\n"[..], &b"a\t\xe3\x81\n"[..], &b"\xa4\xa2\t\xcc\xbe\xbb\xec\n"[..]]);
+        bytes.splice(at..at, bad.iter().cloned());
+        ctx.eval();
+        match guarded(|| Corpus::from_reader(bytes.as_slice()).is_err()) {
+            Ok(true) => ctx.bucket("non_utf8_line_rejected"),
+            Ok(false) => {
+                ctx.violation("malformed_line_accepted", "C19:non_utf8_line_accepted", format!("a line that is not valid UTF-8 ({:?}) inserted at byte {at} was not reported as an error", bad), json!({"corpus_lossy": String::from_utf8_lossy(&bytes)}));
+                return;
+            }
+            Err(p) => {
+                ctx.violation("corpus_parser_panicked", &format!("C19:{}", panic_class(&p)), p, json!({"corpus_lossy": String::from_utf8_lossy(&bytes)}));
+                return;
+            }
+        }
+    }
     if want.len() >= 1 {
         ctx.distinct(hash_bytes(text.as_bytes()));
     }
@@ -930,11 +950,13 @@ pub fn c20_case(ctx: &mut Ctx, rng: &mut Rng) {
     let mut templates: Vec<(String, String)> = vec![];
     for i in 0..k {
         let mk = |rng: &mut Rng, s: char| -> String {
-            match rng.below(5) {
+            match rng.below(7) {
                 0 => format!("B{i}:%{s}[0]"),
                 1 => format!("B{i}:%{s}[0],%{s}[1]"),
                 2 => format!("B{i}:%{s}?[1]"),
                 3 => format!("B{i}:%{s}[0],%{s}?[2]"),
+                4 => format!("B{i}:%{s}?[1],%{s}?[2]"),
+                5 => format!("B{i}:%{s}?[0],%{s}[1],%{s}?[2]"),
                 _ => format!("B{i}:%{s}[{}]", rng.below(4)),
             }
         };
@@ -973,7 +995,12 @@ pub fn c20_case(ctx: &mut Ctx, rng: &mut Rng) {
     // model.def
     let mut model = String::new();
     let mut table: HashMap<String, f64> = HashMap::new();
+    // now and then weights whose scaled cost exceeds 16 bits (the conversion keeps 32-bit costs)
+    let big_weights = rng.chance(0.15);
     let wstr = |rng: &mut Rng| -> String {
+        if big_weights && rng.chance(0.3) {
+            return format!("{}{}.{:02}", if rng.chance(0.5) { "-" } else { "" }, 40 + rng.below(400), rng.below(100));
+        }
         match rng.below(6) {
             0 => "0".to_string(),
             1 => format!("-{}.{}", rng.below(3), rng.below(1000)),
@@ -1058,7 +1085,13 @@ pub fn c20_case(ctx: &mut Ctx, rng: &mut Rng) {
         }
     }
     // compile (raw and dual) with a dummy lexicon and compare every pair of non-zero ids
+    if big_weights {
+        ctx.bucket("weights_beyond_16_bits_after_scaling");
+    }
     for dual in [false, true] {
+        if dual && big_weights {
+            continue; // the dual connector's 16-bit pre-sum precondition (C07) would not hold
+        }
         let conn = ConnTexts::Bigram { right: br.clone(), left: bl.clone(), cost: bc.clone(), dual };
         let d = match build_from_texts(b"a,0,0,0,A\n", b"DEFAULT 0 1 0\n", b"DEFAULT,0,0,0,U\n", &conn) {
             BuildOutcome::Ok(d) => d,
